@@ -309,6 +309,10 @@ def c19(run):
     # a Clear that is not atomic over the names: scenario of 3 goroutines x 2 calls (one registers A and B, one clears, one looks up)
     run.model("MCRegistry.tla", "MCRegistry_walk_ok.cfg", note="3 goroutines x 2 calls, roles fixed (register / clear / look up): Linearizable")
     run.model("MCRegistry.tla", "MCRegistry_dev_clearpername.cfg", expect="Linearizable")
+    # a design variant (RegistryMemo.tla): a one-entry memo served without the lock. Stored under the read lock it is linearizable;
+    # stored after the lock is released (a gap behind the last hook point) it must violate Linearizable
+    run.model("MCRegistryMemo.tla", "MCRegistryMemo_ok.cfg", note="memo variant, stored under the lock: Linearizable, MemoCoherent (2 goroutines x 2 calls)")
+    run.model("MCRegistryMemo.tla", "MCRegistryMemo_gap.cfg", expect="Linearizable")
     # A: TLC's schedules forced on real goroutines through the gate hook
     run.sched_replay("RegistrySched_3x1.cfg", sample=Q(run, 3000, None), note="3 goroutines x 1 call")
     if run.tier == "thorough":
